@@ -675,7 +675,10 @@ def worker(args):
     (prop, kind, seed, ncases, length, profile, mode, oracle_id) = args
     ops = gen_ops(kind, seed, ncases, length, profile)
     impl, ierr = run_impl(ops)
-    model, merr = run_model(ops)
+    # kind=inject has no executable model (map steps are injected at callback points inside a
+    # maintenance run, below the granularity of ConcM): the implementation trace is judged by the
+    # oracles only
+    model, merr = (impl, None) if kind == "inject" else run_model(ops)
     res = {"kind": kind, "seed": seed, "profile": profile, "ncases": ncases, "ierr": ierr,
            "merr": merr, "disagree": [], "oracle_fail": [], "nontrivial": 0, "ops": 0,
            "hist": {}, "sample": None}
@@ -747,7 +750,7 @@ def judge_case(prop, ops_lines, mode, oracle_id):
         agrees = len(ic) == len(mc) and all(first_diff(a, b, mode) is None for a, b in zip(ic, mc))
         return (ok or known), agrees, (impl or "") + "\n# " + detail, model or ""
     impl, ierr = run_impl(ops, timeout=8)
-    model, merr = run_model(ops, timeout=60)
+    model, merr = (impl, None) if " kind=inject " in ops.split("\n", 1)[0] + " " else run_model(ops, timeout=60)
     if impl is None:
         return False, False, "hang", model or ""
     ic = split_cases(impl)
